@@ -1,5 +1,6 @@
 import LhasaV.Lemmas.ReaderLedger
 import LhasaV.Lemmas.StreamProps
+import LhasaV.Lemmas.ReaderIndep
 /-!
 # C15 — members are independent of how other members were skipped, read or checked
 -/
@@ -29,5 +30,56 @@ theorem headers_kind_independent (mk : Nat → Nat) (a b : Basic) (led : Ledger)
     (h : Stream.ObsEq a b) (wf : Stream.WF a) :
     Stream.ResRel (fun r r' => Stream.ObsEq r.1 r'.1 ∧ r.2 = r'.2) (basicNext mk a led) (basicNext mk b led) :=
   Stream.basicNext_kind_indep mk a b led h wf
+
+open ReaderIndep in
+/-- **Headers are independent of how members were handled.** `skeleton` erases the reads and checks
+of a history (what remains: the `next` and `extract` operations with their outcomes). For ANY
+archive bytes, stream kind, directory policy and ANY two histories — legal or not — with the same
+skeleton, the sequences of results of their `next` operations are equal: same headers in the same
+order, same re-presented directories and deferred symbolic links. -/
+theorem headers_independent (st : Stream.St) (pol : DirPolicy) (mk : Nat → Nat)
+    (hl : st.leadin.length ≤ 24) (ops₁ ops₂ : List Op) (hsk : skeleton ops₁ = skeleton ops₂) :
+    nextResults (fresh st pol mk) ops₁ = nextResults (fresh st pol mk) ops₂ :=
+  ReaderIndep.headers_indep st pol mk hl ops₁ ops₂ hsk
+
+open ReaderIndep in
+/-- **Bytes are independent of how OTHER members were handled.** After two histories with the same
+skeleton, the member presented by the next `next` yields the same result under `check`, the same
+under `extract`, the same bytes under a sequential read with any piece size — whatever was read,
+partially read, checked or skipped before. (Uses `decoders_honest`: no decoder of the table can
+make the member source claim more than it had.) -/
+theorem bytes_independent (st : Stream.St) (pol : DirPolicy) (mk : Nat → Nat)
+    (hl : st.leadin.length ≤ 24) (ops₁ ops₂ : List Op) (hsk : skeleton ops₁ = skeleton ops₂) :
+    (check (run (fresh st pol mk) (ops₁ ++ [.next]))).1 =
+      (check (run (fresh st pol mk) (ops₂ ++ [.next]))).1 ∧
+    (∀ b, (extract (run (fresh st pol mk) (ops₁ ++ [.next])) b).1 =
+      (extract (run (fresh st pol mk) (ops₂ ++ [.next])) b).1) ∧
+    (∀ fuel, (decodeLoop fuel (run (fresh st pol mk) (ops₁ ++ [.next])) []).1 =
+      (decodeLoop fuel (run (fresh st pol mk) (ops₂ ++ [.next])) []).1) ∧
+    (∀ k, (read (run (fresh st pol mk) (ops₁ ++ [.next])) k).1 =
+      (read (run (fresh st pol mk) (ops₂ ++ [.next])) k).1) :=
+  ReaderIndep.bytes_indep st pol mk hl ops₁ ops₂ hsk
+
+/-- every decoder of the method table is "honest": it cannot make its source dead or over-long unless
+it already was (the one channel through which decoding could affect later members) -/
+theorem decoders_honest : ReaderIndep.HonestAll := ReaderIndep.honestAll
+
+open ReaderIndep in
+/-- **Re-presented directories appear exactly once.** Along every history: directories re-presented
+so far + directories still on the stack = directories pushed by successful extracts; once the end
+has been reported each pushed directory has been re-presented exactly once; under the PLAIN policy
+nothing is ever pushed or re-presented. -/
+theorem fake_once (st : Stream.St) (pol : DirPolicy) (mk : Nat → Nat) (ops : List Op) :
+    (∀ id, cnt (fakedAll (fresh st pol mk) ops) id + cnt (run (fresh st pol mk) ops).dirStack id =
+      cnt (pushedAll (fresh st pol mk) ops) id) ∧
+    ((run (fresh st pol mk) ops).currType = .eof →
+      ∀ id, cnt (fakedAll (fresh st pol mk) ops) id = cnt (pushedAll (fresh st pol mk) ops) id) ∧
+    (pol = .plain → pushedAll (fresh st pol mk) ops = [] ∧ fakedAll (fresh st pol mk) ops = []) :=
+  ReaderIndep.fake_once st pol mk ops
+
+/-- `next` never faults along any history from a fresh reader -/
+theorem next_never_faults (st : Stream.St) (pol : DirPolicy) (mk : Nat → Nat)
+    (hl : st.leadin.length ≤ 24) (ops : List Op) :
+    ∃ r, next (run (fresh st pol mk) ops) = .ok r := ReaderIndep.next_never_faults st pol mk hl ops
 
 end LhasaV.Props.C15
